@@ -103,7 +103,7 @@ func pktEv(p *rtp.Packet, frag []byte, haveFrag bool) Ev {
 	}
 	return Ev{"hdr": projHeader(&p.Header), "paylen": len(p.Payload), "padsize": int(p.PaddingSize),
 		"payload_is_frag": haveFrag && bytes.Equal(p.Payload, frag),
-		"mres": outcome(r, err), "merrkind": errKind(err), "mlen": len(buf),
+		"mres":            outcome(r, err), "merrkind": errKind(err), "mlen": len(buf),
 		"bres": bres, "bhdr": projHeader(&back.Header), "bpaylen": len(back.Payload), "bpadsize": int(back.PaddingSize),
 		"bpayload_eq": bytes.Equal(back.Payload, p.Payload)}
 }
